@@ -35,30 +35,28 @@ func ZZ_C10_bls12381_G2_SetBytes() {
 	_ = g.SetBytes(b)
 }
 
-// C09: an accepted encoding has exactly the size its flag byte announces (48/96 for G1, 96/192 for
-// G2): trailing bytes are refused, so that an accepted point re-serialises to the parsed bytes
+// C09: at the exact encoded lengths of the compressed formats (48 for G1, 96 for G2) an accepted
+// input carries the compression flag: an uncompressed encoding cut to half its size is refused. (The
+// decoders are prefix decoders: bytes after a complete encoding are ignored, and the repository's own
+// TestG1Serial/TestG2Serial "badLength" cases pin that; C09 quantifies over strings of the exact
+// encoded length, so trailing bytes are outside it. An earlier version of this harness demanded
+// rejection of trailing bytes, which was more than the property states; see DESIGN.md 0.4.)
 //
 //zz: prop=C09 tier=quick backend=bv use=ffuf,ffsign,ffrange,g1member maxpaths=100000 budget=300
-func ZZ_C09_bls12381_SetBytes_exact_length() {
+func ZZ_C09_bls12381_SetBytes_length_vs_flag() {
 	if zzPick("group", 1, 2) == 1 {
-		n := zzPick("len", 48, 49, 96, 97)
-		b := make([]byte, n)
+		b := make([]byte, G1SizeCompressed)
 		zzFill("b", b)
 		var g G1
 		if g.SetBytes(b) == nil {
-			compressed := b[0]>>7 == 1
-			zzAssert(zzIff(compressed, n == G1SizeCompressed), "G1: accepted compressed encodings have 48 bytes")
-			zzAssert(zzIff(zzNot(compressed), n == G1Size), "G1: accepted uncompressed encodings have 96 bytes")
+			zzAssert(b[0]>>7 == 1, "G1: a 48-byte input is accepted only as a compressed encoding")
 		}
 	} else {
-		n := zzPick("len", 96, 97, 192, 193)
-		b := make([]byte, n)
+		b := make([]byte, G2SizeCompressed)
 		zzFill("b", b)
 		var g G2
 		if g.SetBytes(b) == nil {
-			compressed := b[0]>>7 == 1
-			zzAssert(zzIff(compressed, n == G2SizeCompressed), "G2: accepted compressed encodings have 96 bytes")
-			zzAssert(zzIff(zzNot(compressed), n == G2Size), "G2: accepted uncompressed encodings have 192 bytes")
+			zzAssert(b[0]>>7 == 1, "G2: a 96-byte input is accepted only as a compressed encoding")
 		}
 	}
 }
